@@ -252,19 +252,107 @@ def run_property(pid, tier, replay=None, quiet=False, no_evidence=False):
         print('  rule %s: %s' % (v['rule'], v['message']))
         if v.get('site'):
             print('  at %s   (fn %s; cfgs %s)' % (v['site'], v.get('function'), ','.join(v['cfgs'])))
+    canaries, dead = ([], None)
+    if not no_evidence and os.environ.get('VERIF_NO_SELFCHECK') != '1':
+        canaries, dead = selfcheck(pid, tier, mod)
+        if tier == 'thorough' and os.environ.get('VERIF_MUTANT') != '1':
+            # full two-way self-test of this property's rules (mutants, seeded changes, benign edits);
+            # recorded in the evidence, never changes the verdict on /repo
+            try:
+                r = subprocess.run([sys.executable, os.path.join(VERIF, 'selftest', 'run_mutants.py'), '--prop', pid, '--jobs', '8'],
+                                   capture_output=True, text=True, timeout=3000)
+                st = {'caught': re.findall(r'^caught\s+(\S+)', r.stdout, re.M), 'silent_on_benign': re.findall(r'^silent\s+(\S+)', r.stdout, re.M),
+                      'missed': re.findall(r'^(?:MISSED|infra)\s+(\S+)', r.stdout, re.M), 'skipped': re.findall(r'^skipped\s+(\S+)', r.stdout, re.M)}
+                canaries = canaries + [{'selftest': st}]
+                print('self-test %s: %d broken variants reported, %d benign silent, %d missed, %d skipped'
+                      % (pid, len(st['caught']), len(st['silent_on_benign']), len(st['missed']), len(st['skipped'])))
+                for mname in st['missed']:
+                    print('NOTE self-test: variant %s was not reported by the %s rules' % (mname, pid))
+            except Exception as e:
+                print('NOTE self-test could not run: %s' % e)
     if not no_evidence:
-        write_evidence(pid, tier, ctx, mod, time.time() - t0, new, listed)
+        write_evidence(pid, tier, ctx, mod, time.time() - t0, new, listed, canaries=canaries)
     else:
         shutil.rmtree(os.path.dirname(rep_dir), ignore_errors=True)
+    if dead:
+        print('INFRA-ERROR property=%s rule cannot fire: canary %s (a deliberate violation injected into a scratch copy) was not reported' % (pid, dead))
+        return 2
     if not quiet:
         nin = sum(len(r.instances) for r in ctx.rules.values())
-        print('%s: %d rules, %d instances examined, %d violations (%d known) over cfgs %s  [%.1fs]'
+        nc = sum(1 for c in canaries if c.get('fired'))
+        canaries_only = [c for c in canaries if 'id' in c]
+        print('%s: %d rules, %d instances examined, %d violations (%d known) over cfgs %s; canaries fired %d/%d  [%.1fs]'
               % (pid, len(ctx.rules), nin, len(new) + len(listed), len(listed),
-                 ','.join(ctx.cfgs_used), time.time() - t0))
+                 ','.join(ctx.cfgs_used), nc, sum(1 for c in canaries_only if c.get('applied')), time.time() - t0))
     return 1 if new else 0
 
 
-def write_evidence(pid, tier, ctx, mod, wall, new, listed, infra=None):
+def apply_edits(root, m):
+    """apply one mutant (search/replace edits or a patch) to the tree at root; False if it does not apply"""
+    if 'patch' in m:
+        r = subprocess.run(['patch', '-p1', '-s', '-d', root, '-i', os.path.join(VERIF, m['patch'])], capture_output=True, text=True)
+        return r.returncode == 0
+    staged = {}
+    for ed in m['edits']:
+        fp = os.path.join(root, ed['file'])
+        try:
+            src = staged.get(fp) or open(fp).read()
+        except OSError:
+            return False
+        idx = -1
+        for _ in range(ed.get('nth', 0) + 1):
+            idx = src.find(ed['find'], idx + 1)
+            if idx < 0:
+                return False
+        staged[fp] = src[:idx] + ed['replace'] + src[idx + len(ed['find']):]
+    for fp, src in staged.items():
+        open(fp, 'w').write(src)
+    return True
+
+
+def selfcheck(pid, tier, mod):
+    """Canaries: the property's rules are run once more on a scratch copy of /repo with a few
+    deliberate violations injected (selftest/mutants/*.json entries marked `canary`).  Every canary
+    that applies must be reported, otherwise the rule 'cannot fire' (infrastructure error)."""
+    import glob, tempfile
+    cans = []
+    for p in sorted(glob.glob(os.path.join(VERIF, 'selftest', 'mutants', '*.json'))):
+        for m in json.load(open(p)):
+            props = m['property'] if isinstance(m['property'], list) else [m['property']]
+            if m.get('canary') and props[0] == pid:
+                cans.append(m)
+    if not cans:
+        return [], None
+    tmp = tempfile.mkdtemp(prefix='rscanary_', dir='/tmp')
+    try:
+        subprocess.run('cd %s && tar --exclude=.git --exclude=target -cf - . | tar -C %s -xf -' % (REPO, tmp), shell=True, check=True)
+        applied = []
+        for m in cans:
+            if apply_edits(tmp, m):
+                applied.append(m)
+        ctx2 = Ctx(pid, tier, tmp)
+        try:
+            mod.run(ctx2)
+        except Infra as e:
+            # the canary tree does not compile with this /repo: report, do not fail the check
+            return [{'id': m['id'], 'applied': m in applied, 'fired': None, 'note': 'canary tree not analysable: %s' % str(e).splitlines()[0][:120]} for m in cans], None
+        keys = list(ctx2.violations.keys())
+        res = []
+        dead = None
+        for m in cans:
+            if m not in applied:
+                res.append({'id': m['id'], 'applied': False, 'fired': None, 'note': 'edit does not apply to the current /repo tree (skipped)'})
+                continue
+            fired = any(re.search(m['expect'], k) for k in keys)
+            res.append({'id': m['id'], 'applied': True, 'fired': fired})
+            if not fired:
+                dead = m['id']
+        return res, dead
+    finally:
+        shutil.rmtree(tmp, ignore_errors=True)
+
+
+def write_evidence(pid, tier, ctx, mod, wall, new, listed, infra=None, canaries=None):
     rules = []
     total = 0
     nontrivial = set()
@@ -308,6 +396,7 @@ def write_evidence(pid, tier, ctx, mod, wall, new, listed, infra=None):
             'notes': ctx.notes,
             'known_findings_reported': [v['key'] for v in listed],
             'violation_keys': [v['key'] for v in new],
+            'canaries': canaries or [],
         },
         'assumptions': getattr(mod, 'ASSUMPTIONS', []),
         'wall_s': round(wall, 2),
